@@ -117,3 +117,109 @@ class Samples(object):
 
     def cmp_blocks(self):
         return sorted(set(bb for bb, _ in self.cmp))
+
+
+def scenario_flags(body, seeds=()):
+    """bool locals worth tracking in a scenario graph: the seeds (results of decided calls / comparisons), every bool
+    local with a constant definition, and what is built from those by copies and `!`"""
+    flags = set(seeds)
+    for blk in body.blocks:
+        if blk.cleanup:
+            continue
+        for s in blk.stmts:
+            if s.kind == "assign" and s.place.is_local() and body.locals[s.place.local].get("s") == "bool" and not body.is_noise(s) \
+                    and s.rv.k == "use" and s.rv.ops and s.rv.ops[0].const_bool() is not None:
+                flags.add(s.place.local)
+    # enum-typed locals that are assigned a variant literally (`next = None` / `next = Some(x)`) and tested later
+    tested = set()
+    for blk in body.blocks:
+        if blk.cleanup:
+            continue
+        for s in blk.stmts:
+            if s.kind == "assign" and s.rv.k == "discr" and s.rv.place is not None and s.rv.place.is_local():
+                tested.add(s.rv.place.local)
+    tags = set()
+    for blk in body.blocks:
+        if blk.cleanup:
+            continue
+        for s in blk.stmts:
+            if s.kind == "assign" and s.place.is_local() and s.rv.k == "agg" and s.rv.j.get("ak") == "adt" and "vidx" in s.rv.j \
+                    and not body.is_noise(s):
+                tags.add(s.place.local)
+    changed = True
+    while changed:
+        changed = False
+        for blk in body.blocks:
+            if blk.cleanup:
+                continue
+            for s in blk.stmts:
+                if s.kind != "assign" or not s.place.is_local() or body.is_noise(s):
+                    continue
+                if s.place.local not in flags and body.locals[s.place.local].get("s") == "bool" and s.rv.k in ("use", "unop") and s.rv.ops \
+                        and s.rv.ops[0].place is not None and s.rv.ops[0].place.is_local() and s.rv.ops[0].place.local in flags:
+                    flags.add(s.place.local)
+                    changed = True
+                if s.place.local not in tags and s.rv.k == "use" and s.rv.ops and s.rv.ops[0].place is not None \
+                        and s.rv.ops[0].place.is_local() and s.rv.ops[0].place.local in tags:
+                    tags.add(s.place.local)
+                    changed = True
+    # only chains that end in a test matter
+    live = set(t for t in tags if t in tested)
+    changed = True
+    while changed:
+        changed = False
+        for blk in body.blocks:
+            if blk.cleanup:
+                continue
+            for s in blk.stmts:
+                if s.kind == "assign" and s.place.is_local() and s.place.local in live and s.rv.k == "use" and s.rv.ops \
+                        and s.rv.ops[0].place is not None and s.rv.ops[0].place.is_local() and s.rv.ops[0].place.local in tags \
+                        and s.rv.ops[0].place.local not in live:
+                    live.add(s.rv.ops[0].place.local)
+                    changed = True
+    return sorted(flags) + sorted(live - flags)
+
+
+class Scenario(object):
+    """The body's CFG under an assumption about a few decisions: `calls` maps a call's block to the boolean it returns,
+    `switches(bb, expr, labels)` may restrict a switch to some of its labels. What stays reachable is what the function
+    can do under that assumption, however the decision is threaded through helpers, `&&`, intermediate bindings."""
+
+    def __init__(self, ctx, body, calls=None, switches=None, opt=True):
+        an = ctx.an(body)
+        calls = dict(calls or {})
+        seeds = []
+        for bb in calls:
+            t = body.blocks[bb].term
+            if t.kind == "call" and t.dest is not None and t.dest.is_local() and body.locals[t.dest.local].get("s") == "bool":
+                seeds.append(t.dest.local)
+        flags = scenario_flags(body, seeds)
+        if len(flags) > 24:
+            keep = set(seeds)
+            flags = [f for f in flags if f in keep] + [f for f in flags if f not in keep][:24 - len(keep)]
+        self._sw = {}
+
+        def swhook(bb):
+            if switches is None:
+                return None
+            if bb not in self._sw:
+                r = None
+                if not body.is_noise(body.blocks[bb].term):
+                    e, ls = an.switch_info(bb, opt=opt)
+                    chosen = switches(bb, e, ls)
+                    if chosen is not None:
+                        r = [tb for tb, l in ls.items() if any(x in chosen for x in l)]
+                self._sw[bb] = r
+            return self._sw[bb]
+        self.g = Graph(body, flags, callhook=lambda bb, t: calls.get(bb), swhook=swhook)
+        self.reach = set(self.g.bb(n) for n in self.g.reachable())
+        self.body = body
+
+    def reachable(self, bb):
+        return bb in self.reach
+
+    def reach_from(self, bbs):
+        starts = []
+        for bb in bbs:
+            starts += self.g.nodes_of_bb(bb)
+        return set(self.g.bb(n) for n in self.g.reachable(starts)) if starts else set()
